@@ -23,12 +23,14 @@ PLANS = {
     "C05": [("heapsim", "asan", "soundness", 40000, 1500000), ("heapsim", "noguard", "soundness", 20000, 700000), ("heapsim", "asan", "accounting", 8000, 200000), ("heapsim", "asan", "oom", 8000, 200000)],
     "C06": [("heapsim", "asan", "misuse", 50000, 2000000), ("heapsim", "noguard", "misuse", 15000, 500000), ("heapsim", "asan", "accounting", 8000, 200000)],
     "C07": [("runsim", "asan", "leaks", 50000, 1500000), ("runsim", "noexc", "leaks", 15000, 500000)],
+    "C08": [("mocksim", "asan", "verdict", 24000, 800000), ("mocksim", "asan", "cfront", 4000, 100000)],
     "C11": [("runsim", "asan", "process_syn", 60000, 2000000), ("runsim", "plain", "process", 8000, 300000), ("runsim", "noexc", "process_syn", 15000, 400000)],
     "C14": [("heapsim", "asan", "diagnostics", 30000, 1000000), ("heapsim", "noguard", "diagnostics", 10000, 300000), ("heapsim", "asan", "accounting", 8000, 200000), ("runsim", "asan", "leaks", 10000, 300000)],
     "C15": [("heapsim", "asan", "oom", 50000, 2000000), ("heapsim", "noguard", "oom", 15000, 500000)],
     "C16": [("runsim", "asan", "junit", 30000, 800000), ("runsim", "noexc", "junit", 8000, 200000)],
     "C17": [("runsim", "asan", "pointers", 40000, 1500000), ("runsim", "noexc", "pointers", 15000, 500000), ("runsim", "asan", "lifecycle", 10000, 300000)],
     "C18": [("cachesim", "asan", "cache", 200000, 6000000)],
+    "C19": [("mocksim", "asan", "cfront", 24000, 800000)],
     "C20": [("runsim", "asan", "teamcity", 40000, 1200000), ("runsim", "noexc", "teamcity", 8000, 200000)],
 }
 # properties whose statement contains a memory-safety / no-crash / no-hang clause: a crash class is attributed to them
@@ -54,7 +56,14 @@ COMPONENTS["cachesim"] = {
     "real": ["src/CppUTest/SimpleStringInternalCache.cpp (cache, size classes, used/free lists, clear operations, one-time warning)", "UtestShell::print path of the warning"],
     "simulated": ["underlying TestMemoryAllocator (recording allocator over real malloc so that ASan sees misuse; dirty memory; exact outstanding set)", "console stream"],
 }
+COMPONENTS["mocksim"] = {
+    "real": ["src/CppUTestExt/MockSupport.cpp, MockActualCall.cpp, MockExpectedCall.cpp, MockExpectedCallsList.cpp, MockNamedValue.cpp, MockFailure.cpp, MockSupportPlugin.cpp, MockSupport_c.cpp", "TestRegistry/UtestShell/TestResult running each scenario as a real test with the real default and C failure reporters (exception and longjmp termination)"],
+    "simulated": ["caller tasks and their interleaving (seeded cooperative scheduler over per-task call lists)", "test programs (scenario interpreter over the C++ and the C front end)", "console stream"],
+}
 RULES = {
+    "mocksim": "one evaluation = one generated registry of 1-3 mocked scenarios (up to 12 expectations over 8 functions with 0-3 typed parameters, objects, output parameters, return values unique per class, expectNCalls 0-4, strict order, ignoreOtherCalls, "
+               "ignoreOtherParameters, scopes) whose matching calls are spread over 1-4 caller tasks, with at most one injected deviation, executed under 2-8 schedules (cfront: 2 schedules through both front ends). "
+               "Non-trivial = a deviation was injected; distinct = distinct hashes of (failure counts, first lines, per-call return/output logs).",
     "cachesim": "one evaluation = one generated history of 1-160 alloc(size)/dealloc(ptr,size')/foreign or double release/clearCache/clearAll/hasFree/destroy-and-recreate operations over sizes 0..1024 (dense at every class boundary) "
                 "against a fresh cache over the recording allocator; a shadow map is compared after every operation. Non-trivial = at least one buffer was handed out; distinct = distinct hashes of (operations, outstanding-allocation counts, verdicts).",
     "heapsim": "one evaluation = one generated history of 1-400 operations (alloc/free/realloc through the local API with inline or separate bookkeeping and through the global operator new / cpputest_malloc routing, period/stage/clear/report "
@@ -66,6 +75,9 @@ RULES = {
 }
 
 ASSUMPTIONS = {
+    "mocksim": ["scenarios outside the property's unambiguity precondition (object/no-object mix, ignoreOtherParameters next to other classes, expectNoCall next to expectations) are skipped by the oracle",
+                "where two diagnoses are defensible for a surplus call the oracle accepts a set; verdict, exactly-one-failure and order independence are never relaxed",
+                "C19 compares the C execution with the C++ execution of the same scenario and schedule (the C++ interface is the reference); onObject does not exist in the C interface and is not generated there", "seeded sampling: evidence, not proof"],
     "cachesim": ["a release names a size of the buffer's own class (the property's precondition); foreign pointers are readable C strings (the warning prints them)",
                  "double releases are generated only for cached classes (the memory is still owned by the cache); allocator failures are not injected (the cache has no failure path)", "seeded sampling: evidence, not proof"],
     "heapsim": ["failures of the separate bookkeeping-node allocation and the combination nothrow-new x platform malloc returning NULL are outside the fault model (DESIGN 9)",
